@@ -62,6 +62,22 @@ def stream_static(ctx):
     for f, q, s in flagged:
         ctx.disagree("static", {"kind": "static", "what": "purity", "function": q, "file": f},
                      f"source purity: `{q}` ({f}) has no trailing underscore but writes in place through a possible alias of an argument at {s}")
+    # --- module-level state (round 5, classes 32 / 29): mirrors the Lean obligation `shared_state_clean` so that it is also decided with --no-lean
+    g = gen["globals"]
+    REVIEWED_DEFAULTS = {("lietensor/lietensor.py", "LieTensor.__torch_function__", "kwargs={}")}      # never written: only forwarded as **kwargs
+    ctx.count("static.cached_functions", len(g["cached"]))
+    ctx.count("static.tensor_constants", len(g["consts"]))
+    for f, q, d in g["cached"]:
+        ctx.disagree("static", {"kind": "static", "what": "cached", "function": q, "file": f},
+                     f"shared state: `{q}` ({f}) is decorated with `{d}`: every caller receives the SAME object; not in the reviewed list")
+    for f, q, site in g["writes"]:
+        ctx.disagree("static", {"kind": "static", "what": "shared-write", "function": q, "file": f},
+                     f"shared state: `{q}` ({f}) writes in place through a possible alias of module-level / cached state at {site} "
+                     f"(`.expand(...)` / `.contiguous()` / `.view` of a constant make no copy for single-item shapes)")
+    for f, q, d in g["defaults"]:
+        if (f, q, d) not in REVIEWED_DEFAULTS:
+            ctx.disagree("static", {"kind": "static", "what": "mutable-default", "function": q, "file": f},
+                         f"shared state: `{q}` ({f}) has the mutable default `{d}` — shared by every call that omits the argument")
     if not any(q == "LieTensor.add_" and s for _, q, _, _, s in gen["purity"]):
         ctx.disagree("static", {"kind": "static", "what": "purity-vacuous"}, "the purity analyser no longer sees the in-place API (LieTensor.add_)")
     return gen
